@@ -10,6 +10,7 @@ type vChunkReader struct {
 	whole bool
 	reads int
 	cuts  int // >0: after this many arbitrary pieces the rest arrives as fast as the caller reads it
+	each  int // >0: every read returns at most this many bytes (a fixed piece size)
 }
 
 func (r *vChunkReader) Read(p []byte) (int, error) {
@@ -21,7 +22,9 @@ func (r *vChunkReader) Read(p []byte) (int, error) {
 	}
 	max := vMin(len(p), len(r.data)-r.pos)
 	n := max
-	if !r.whole && (r.cuts == 0 || r.reads < r.cuts) {
+	if r.each > 0 {
+		n = vMin(max, r.each)
+	} else if !r.whole && (r.cuts == 0 || r.reads < r.cuts) {
 		n = int(vU8("chunk"))
 		vAssume(1 <= n && n <= max)
 	}
@@ -40,7 +43,6 @@ func (rw *vRW) Read(p []byte) (int, error)  { return rw.r.Read(p) }
 func (rw *vRW) Write(p []byte) (int, error) { rw.out = append(rw.out, p...); return len(p), nil }
 func (rw *vRW) Close() error                { return nil }
 
-
 // vRecConn records every Write call separately (each call is atomic on a TCP connection; calls from different
 // goroutines may interleave between calls).
 type vRecConn struct {
@@ -54,7 +56,6 @@ func (c *vRecConn) Write(p []byte) (int, error) {
 	return len(p), nil
 }
 func (c *vRecConn) Close() error { c.closed++; return nil }
-
 
 type vBufW struct{ b []byte }
 
@@ -77,4 +78,3 @@ func c02UploadStream(name, data []byte) []byte {
 	s = append(s, data...)
 	return s
 }
-
